@@ -110,7 +110,7 @@ Record cfg := mkCfg {
    present or not *)
 Definition gcfg (pre ai : bool) := mkCfg true true true true pre ai.
 Definition cfg_fixed := gcfg true true.
-Definition cfg_head := gcfg false false.                          (* /repo at aca2fa7 *)
+Definition cfg_head := gcfg false true.                           (* /repo at a539b60 (attribute-info check in, link pre-check not) *)
 Definition cfg_repo := mkCfg true false true true false false.     (* before 0d24a11 (link object headers at exact size) *)
 Definition cfg_exact_hdr := mkCfg false false true true false false.   (* before 9ee6197 *)
 Definition cfg_no_extend := mkCfg true true false true false false.    (* before 72cccd1 *)
@@ -224,7 +224,8 @@ Record obj := mkObj {
   o_nrec : N }.           (* dense attribute storage: records in the name index *)
 
 Record state := mkState {
-  st : store; objs : list obj; opidx : N; closed : bool; session : N; sbv : N; conf : cfg }.
+  st : store; objs : list obj; opidx : N; closed : bool; session : N; sbv : N; conf : cfg;
+  sbeof : N }.            (* end-of-file address stored in the superblock on disk *)
 
 Fixpoint get_obj (l : list obj) (x : oid) : option obj :=
   match l with [] => None | ob :: r => if o_id ob =? x then Some ob else get_obj r x end.
@@ -530,8 +531,8 @@ Definition compile (s : state) (o : op) : compiled :=
       end
   end.
 
-(* FileWriter.Close: (global heap flush: nothing without variable-length data), extend the file to the
-   allocator's end of file, close.  A second Close does nothing. *)
+(* FileWriter.Close: (global heap flush: nothing without variable-length data), update the superblock's
+   end-of-file field, extend the file to the allocator's end of file, close.  A second Close does nothing. *)
 Definition close_store (c : cfg) (s : store) : store :=
   if c_extend_close c
   then mkStore (al s) (exts s) (N.max (fsize s) (next (al s))) (wlog s) (blocks s) (ovf s)
@@ -541,27 +542,34 @@ Definition close_store (c : cfg) (s : store) : store :=
 Definition reopen_store (sb : N) (s : store) : store :=
   mkStore (mkAlloc (N.max (fsize s) (sb_size sb))) (exts s) (fsize s) (wlog s) [] (ovf s).
 
+(* Superblock.UpdateEndOfFile (fix 34f7371): when the stored end-of-file address is below the allocator's,
+   the first 48 bytes of the file are rewritten in place (field + checksum) *)
+Definition sb_update_len : N := 48.
+
 Definition do_close (s : state) : state :=
   if closed s then s
-  else mkState (close_store (conf s) (st s)) (objs s) (opidx s) true (session s) (sbv s) (conf s).
+  else
+    let st1 := if sbeof s <? next (al (st s)) then write (st s) 0 sb_update_len else st s in
+    mkState (close_store (conf s) st1) (objs s) (opidx s) true (session s) (sbv s) (conf s)
+            (N.max (sbeof s) (next (al (st s)))).
 
 (* a failing call keeps its store effects; the bookkeeping of a failed call is that of the
    hard-link roll-back only (see compile) *)
 Definition step (s : state) (o : op) : state * bool :=
-  let s0 := mkState (clear_log (st s)) (objs s) (opidx s) (closed s) (session s) (sbv s) (conf s) in
+  let s0 := mkState (clear_log (st s)) (objs s) (opidx s) (closed s) (session s) (sbv s) (conf s) (sbeof s) in
   match o with
   | OpClose =>
       let s1 := do_close s0 in
-      (mkState (st s1) (objs s1) (opidx s + 1) (closed s1) (session s1) (sbv s1) (conf s1), true)
+      (mkState (st s1) (objs s1) (opidx s + 1) (closed s1) (session s1) (sbv s1) (conf s1) (sbeof s1), true)
   | OpReopen =>
       (* the harness (and any sane caller) closes the previous writer first *)
       let s1 := do_close s0 in
-      (mkState (reopen_store (sbv s) (st s1)) (objs s1) (opidx s + 1) false (session s + 1) (sbv s) (conf s), true)
+      (mkState (reopen_store (sbv s) (st s1)) (objs s1) (opidx s + 1) false (session s + 1) (sbv s) (conf s) (sbeof s1), true)
   | _ =>
       let '(cmds, ok, upd) := compile s0 o in
       let '(st', done) := exec (st s0) cmds in
       let applies := match o with OpHardLink _ _ _ _ => done | _ => ok && done end in
-      (mkState st' (if applies then upd (objs s) else objs s) (opidx s + 1) (closed s) (session s) (sbv s) (conf s),
+      (mkState st' (if applies then upd (objs s) else objs s) (opidx s + 1) (closed s) (session s) (sbv s) (conf s) (sbeof s),
        ok && done)
   end.
 
@@ -592,7 +600,9 @@ Definition root_obj : obj := mkObj 0 OGroup [(M_SYMTAB, 16)] 0 0 0 0 0.
 Definition init (c : cfg) (sb : N) : state :=
   let s0 := empty_store sb in
   let s1 := mkStore (al s0) [mkExt 0 (sb_size sb) 0 KSuper] 0 [] [] false in
-  mkState (fst (exec s1 (init_cmds c sb))) [root_obj] 0 false 0 sb c.
+  let st1 := fst (exec s1 (init_cmds c sb)) in
+  (* CreateForWrite: v0 records heap address + heap data size, v2/v3 the allocator's end of file *)
+  mkState st1 [root_obj] 0 false 0 sb c (if sb =? 0 then v0_heap_addr + heap_data else next (al st1)).
 
 (* ------------------------------------------------------------------ what an operation may touch *)
 
@@ -607,7 +617,8 @@ Definition targets (s : state) (o : op) (w : oid) (k : kind) : bool :=
       (w =? x) || ((w =? p) && is_heap_snod k)
   | OpWrite y _ | OpResize y | OpAttrSet y _ _ _ | OpAttrDel y _ => (w =? y)
   | OpHardLink p _ _ t => ((w =? t) && is_hdr k) || ((w =? p) && is_heap_snod k)
-  | OpReject | OpClose | OpReopen => false
+  | OpClose | OpReopen => (w =? 0) && kind_eqb k KSuper      (* Close may update the superblock *)
+  | OpReject => false
   end.
 
 (* ------------------------------------------------------------------ executable predicates (tie, witnesses) *)
